@@ -9,6 +9,9 @@ func init() {
 		// the fetch stream loads its first chunk of initChunkSize ids (shipped: 1000) and sizes the next ones from
 		// the average document size: reachable with tens of documents
 		"github.com/ozontech/seq-db/storeapi": {"initChunkSize": "16"},
+		// postings of a token go to the background merge workers once more than minMergeQueue (shipped: 10000)
+		// of them are queued
+		"github.com/ozontech/seq-db/frac": {"minMergeQueue": "64"},
 	}
 	constVariants["tiny"] = map[string]map[string]string{
 		"github.com/ozontech/seq-db/consts": {"IDsBlockSize": "4", "IDsPerBlock": "4", "LIDBlockCap": "8", "RegularBlockSize": "64"},
@@ -16,5 +19,8 @@ func init() {
 		// at most 1/excessiveSizeFactor of them (shipped: 200 and 10): reachable with a handful of keys
 		"github.com/ozontech/seq-db/cache":    {"recreateThreshold": "4", "excessiveSizeFactor": "2"},
 		"github.com/ozontech/seq-db/storeapi": {"initChunkSize": "4"},
+		"github.com/ozontech/seq-db/frac":     {"minMergeQueue": "4"},
+		// the collector's buffers are re-allocated smaller after defaultReuserStatsPoolSize (shipped: 200) bulks
+		"github.com/ozontech/seq-db/util": {"defaultReuserStatsPoolSize": "4"},
 	}
 }
